@@ -10,14 +10,17 @@ VARIANTS = {
     "serpent": dict(crate="serpent", common_mods=["uf"], subs=[_SERPENT_LINTS]),
     # looped instead of unrolled rounds (serpent/src/unroll.rs); cfg baked in through the generated build.rs
     "serpent:loop": dict(crate="serpent", cfgs=["serpent_no_unroll"], common_mods=["uf"], subs=[_SERPENT_LINTS]),
+    # the two harnesses that name the private helper expand_key (see harness/serpent/conf_priv.rs)
+    "serpent:priv": dict(crate="serpent", common_mods=["uf"], subs=[_SERPENT_LINTS]),
     "twofish": dict(crate="twofish", common_mods=["uf"]),
     "cast6": dict(crate="cast6", common_mods=["uf"]),
 }
 _ALL = [("serpent", ["serpent/conf.rs"]), ("twofish", ["twofish/conf.rs"]), ("cast6", ["cast6/conf.rs"])]
+_PRIV = [("serpent:priv", ["serpent/conf_priv.rs"])]
 PLAN = {
-    "C08": list(_ALL),
+    "C08": list(_ALL) + _PRIV,
     "C01": list(_ALL),
-    "C20": list(_ALL),
+    "C20": list(_ALL) + _PRIV,
     # unrolled == looped: the same leaf + wiring conformance harnesses on both configurations, one oracle
     "C03": [("serpent", ["serpent/conf.rs"]), ("serpent:loop", ["serpent/conf.rs"])],
 }
